@@ -345,7 +345,7 @@ func (c *c03) Meta() engine.Meta {
 		Category:  "model_checking",
 		LevelName: "1 = single mutations / pre-image products, 2 = pairs of mutations of different fields, 3 = triples (thorough)",
 		Technique: "bounded-exhaustive mutation enumeration of signed transactions on the real application (twin oracle) + exhaustive bounded injectivity check of the signing pre-image",
-		Rule: "(a) 10 valid signed base transactions (all 8 types, deployment, call, transfer to a contract) at a state where each of them succeeds; mutation operators on the DECODED value of every field with the signature KEPT: version, time (+-1, 0, sign flip, +2^32, +2^63), nonce, claimed sender (5 other accounts, with their current nonce), receiver, amount (+-1, +1R, +2^64, +2^128, 0, x2), gas, gas price, type (relabel to each of the 8 types), every payload sub-field incl. the narrowed ones (heights +1 / +2^31 / +2^32 / +2^40 / +2^62, option type +2^16, options changed / appended / swapped, vote choice / proposal, call data, name / url boundary shift), the signature itself (every byte, truncation, extension, v+27, a signature of another transaction of the same sender) and the chain id (application initialised with another id; transaction signed for another id): all single mutations and all pairs of mutations of two different fields (thorough: also all triples over three different non-signature fields). The node has seen the genuine transaction in a mempool check before the mutants arrive, and a second pass re-uses the genuine signature on altered copies with the next nonce after the genuine transaction was executed. Oracle: the mutant's DeliverTx code is non-zero, the unmodified transaction still succeeds afterwards, and the complete state equals the twin that never saw the mutants. " +
+		Rule: "(a) 10 valid signed base transactions (all 8 types, deployment, call, transfer to a contract) at a state where each of them succeeds; mutation operators on the DECODED value of every field with the signature KEPT: version, time (+-1, 0, sign flip, +2^32, +2^63), nonce, claimed sender (5 other accounts, with their current nonce), receiver, amount (+-1, +1R, +2^64, +2^128, 0, x2), gas, gas price, type (relabel to each of the 8 types), every payload sub-field incl. the narrowed ones (heights +1 / +2^31 / +2^32 / +2^40 / +2^62, option type +2^16, options changed / appended / swapped, vote choice / proposal, call data, name / url boundary shift), the signature itself (every byte, truncation, extension, v+27, a signature of another transaction of the same sender) and the chain id (application initialised with another id or with a mixed-case id; transaction signed for another id and for 11 NEAR variants of the application's own id: other case, leading / trailing blank, newline, tab, NUL, shortened, extended, doubled): all single mutations and all pairs of mutations of two different fields (thorough: also all triples over three different non-signature fields). The node has seen the genuine transaction in a mempool check before the mutants arrive, and a second pass re-uses the genuine signature on altered copies with the next nonce after the genuine transaction was executed. Oracle: the mutant's DeliverTx code is non-zero, the unmodified transaction still succeeds afterwards, and the complete state equals the twin that never saw the mutants. " +
 			"(b) for every transaction type the full product of per-field value menus (values chosen to collide under any 32/64-bit narrowing: x, x+1, x+2^31, x+2^32, x+2^40, negative / wrapped): no two transactions that differ in an executed field share the signing pre-image (hash-set based). " +
 			"distinct_nontrivial = cases in which at least one mutant was rejected BY THE SIGNATURE CHECK (not by an earlier validation).",
 		Assumptions: []string{
@@ -609,10 +609,13 @@ func (c *c03) RunDesc(desc json.RawMessage) engine.Result {
 // chainID: a transaction signed for another chain id is never accepted, in both directions.
 func (c *c03) chainID(cs c03Case, desc json.RawMessage) engine.Result {
 	res := engine.Result{}
-	for _, dir := range []string{"tx-signed-for-other-chain", "app-initialised-with-other-id"} {
+	for _, dir := range []string{"tx-signed-for-other-chain", "app-initialised-with-other-id", "app-id-mixed-case"} {
 		g := genesis3()
 		if dir == "app-initialised-with-other-id" {
 			g.ChainID = "another-chain"
+		}
+		if dir == "app-id-mixed-case" {
+			g.ChainID = "Verif-Chain 7"
 		}
 		h := sim.History{Gen: g, Blocks: []sim.Block{blk(), blk()}}
 		run := sim.Run(tmpRoot(), h, &sim.Hooks{NoStates: true})
@@ -625,10 +628,17 @@ func (c *c03) chainID(cs c03Case, desc json.RawMessage) engine.Result {
 			} else {
 				s.ChainID = "verif-chain"
 			}
-			for _, other := range []string{s.ChainID, s.ChainID + " ", strings.ToUpper(s.ChainID), "x"} {
+			// foreign ids, and NEAR variants of the application's own id (case, surrounding white space, NUL, prefix, suffix, empty)
+			own := g.ChainID
+			if own == "" {
+				own = "verif-chain"
+			}
+			variants := []string{s.ChainID, s.ChainID + " ", strings.ToUpper(s.ChainID), "x",
+				strings.ToUpper(own), strings.ToLower(own), strings.Title(own), own + " ", " " + own, own + "\n", own + "\t", own + "\x00", own[:len(own)-1], own + "x", own + own}
+			for _, other := range variants {
 				s.ChainID = other
-				if other == g.ChainID {
-					continue
+				if other == g.ChainID || other == own || other == "" {
+					continue // "" is resolved by the harness to the application's own id
 				}
 				out := ch.Deliver(s, nil)
 				res.Transitions++
